@@ -16,8 +16,17 @@
   that panics is finding F15 (see DESIGN.md) and is modelled in Model/Chain.
   `write len fwd`: the underlying writer accepted `fwd` of the `len` bytes
   (`fwd` is chosen by the environment; the real spy writer is told the same number).
+
+  The literals come from the source (Gen/ConstFacts, regenerated on every run): the implicit
+  status of `Write` (`Flush` has its own literal, tied to the same value in
+  Props/ConstFacts/C13) and the status value that means "nothing sent".
 -/
+import Flamego.Gen.ConstFacts
 namespace Flamego.Writer
+
+-- `simp` sees through the generated constants (a proof that needs the documented value then
+-- breaks, by name, when the source literal changes)
+attribute [simp] Gen.writerWriteImplicitStatus Gen.writerUnwrittenStatus
 
 inductive UEv
   | hdr (c : Nat) | body (n : Nat) | flush | hook (h : Nat)
@@ -43,7 +52,7 @@ structure W where
 def init (head : Bool) : W := { head := head }
 
 /-- `Written()` -/
-def W.written (w : W) : Bool := w.status != 0
+def W.written (w : W) : Bool := w.status != Gen.writerUnwrittenStatus
 
 /-- `WriteHeader(c)`: `sync.Once`; inside: return if written, hooks LIFO, forward, store. -/
 def W.writeHeader (w : W) (c : Nat) : W :=
@@ -54,7 +63,7 @@ def W.writeHeader (w : W) (c : Nat) : W :=
                 status := c }
 
 /-- `if !w.Written() { w.WriteHeader(200) }` -/
-def W.ensure (w : W) : W := if w.written then w else w.writeHeader 200
+def W.ensure (w : W) : W := if w.written then w else w.writeHeader Gen.writerWriteImplicitStatus
 
 def step (w : W) : Op → W
   | .writeHeader c => w.writeHeader c
